@@ -74,10 +74,33 @@ static void *c19_calloc(size_t a, size_t b)
 	return p;
 }
 
+/* buffers owned by the original that the hook under test must never free */
+#ifndef C19_MAXPROT
+#define C19_MAXPROT 5
+#endif
+static const void *g_prot[C19_MAXPROT];
+static unsigned g_prot_n, g_prot_freed;
+static int g_prot_armed;
+
+static void c19_protect(const void *p)
+{
+	if (g_prot_n < C19_MAXPROT)
+		g_prot[g_prot_n++] = p;
+}
+
 static void c19_free(void *p)
 {
-	if (p != NULL)
+	unsigned i;
+
+	if (p != NULL) {
 		g_live--;
+		if (g_prot_armed) {
+			for (i = 0; i < C19_MAXPROT; ++i) {
+				if (i < g_prot_n && g_prot[i] == p)
+					g_prot_freed++;
+			}
+		}
+	}
 	free(p);
 }
 
